@@ -133,7 +133,6 @@ impl<E: FieldElement<BaseField = Felt>> AuxColumnBuilder<E> for BusColumnBuilder
             debug_assert_eq!(selector1, ONE);
             debug_assert_eq!(selector2, ONE);
             build_kernel_chiplet_responses(main_trace, row, selector4, alphas)
-                * build_kernel_procedure_table_responses(main_trace, row, alphas)
         } else {
             debug_assert_eq!(selector0, ONE);
             debug_assert_eq!(selector1, ONE);
@@ -242,14 +241,24 @@ where
     }
 }
 
-/// Constructs the inclusions to the kernel procedure table.
+/// Constructs the inclusions to the kernel procedure table: every unique kernel procedure is added
+/// once, at the first row of the kernel ROM trace which holds it (i.e., the first kernel ROM row or
+/// a row at which the kernel ROM address column changed).
 fn chiplets_kernel_table_include<E>(main_trace: &MainTrace, alphas: &[E], row: usize) -> E
 where
     E: FieldElement<BaseField = Felt>,
 {
-    if main_trace.is_kernel_row(row) && main_trace.is_addr_change(row) {
+    if !main_trace.is_kernel_row(row) {
+        return E::ONE;
+    }
+    let addr = main_trace.chiplet_kernel_addr(row);
+    let is_first_row_of_proc = row == 0
+        || !main_trace.is_kernel_row(row - 1)
+        || main_trace.chiplet_kernel_addr(row - 1) != addr;
+
+    if is_first_row_of_proc {
         alphas[0]
-            + alphas[1].mul_base(main_trace.addr(row))
+            + alphas[1].mul_base(addr)
             + alphas[2].mul_base(main_trace.chiplet_kernel_root_0(row))
             + alphas[3].mul_base(main_trace.chiplet_kernel_root_1(row))
             + alphas[4].mul_base(main_trace.chiplet_kernel_root_2(row))
@@ -909,29 +918,6 @@ where
         + alphas[5].mul_base(root3);
 
     v.mul_base(kernel_chiplet_selector) + E::from(ONE - kernel_chiplet_selector)
-}
-
-/// Builds the response from the kernel procedure table at `row`.
-fn build_kernel_procedure_table_responses<E>(main_trace: &MainTrace, row: usize, alphas: &[E]) -> E
-where
-    E: FieldElement<BaseField = Felt>,
-{
-    let addr = main_trace.chiplet_kernel_addr(row);
-    let addr_nxt = main_trace.chiplet_kernel_addr(row + 1);
-    let addr_delta = addr_nxt - addr;
-    let root0 = main_trace.chiplet_kernel_root_0(row);
-    let root1 = main_trace.chiplet_kernel_root_1(row);
-    let root2 = main_trace.chiplet_kernel_root_2(row);
-    let root3 = main_trace.chiplet_kernel_root_3(row);
-
-    let v = alphas[0]
-        + alphas[1].mul_base(addr)
-        + alphas[2].mul_base(root0)
-        + alphas[3].mul_base(root1)
-        + alphas[4].mul_base(root2)
-        + alphas[5].mul_base(root3);
-
-    v.mul_base(addr_delta) + E::from(ONE - addr_delta)
 }
 
 // HELPER FUNCTIONS
